@@ -3,7 +3,7 @@
 P=$1; ID=$2; TIER=${3:-quick}
 cd /repo || exit 3
 if ! git diff --quiet; then echo "/repo has uncommitted changes"; exit 3; fi
-git apply "$P" 2>/dev/null || git apply -3 "$P" || { echo "patch does not apply"; git checkout -- .; exit 3; }
+git apply "$P" 2>/dev/null || git apply -3 "$P" || { echo "patch does not apply"; git reset -q --hard HEAD; exit 3; }
 ( cd /verif && ./check "$ID" "$TIER" > /tmp/mut.out 2>&1 ); rc=$?
 git -C /repo checkout -- . ; git -C /repo status --short | grep -v '^??' 
 grep -E "^VIOLATION|violation \[" /tmp/mut.out | head -4
